@@ -60,6 +60,8 @@ def main():
         res["reach"]["decl:" + k] = res["reach"].get("decl:" + k, 0) + v
     res["reach"]["process_default:resource=%s,is_sequential=%s" % (getattr(_cfg.TAWAZI_DEFAULT_RESOURCE, "value", _cfg.TAWAZI_DEFAULT_RESOURCE),
                                                                    _cfg.TAWAZI_IS_SEQUENTIAL)] = 1
+    for k, v in probes.FAULT_CLASS_COUNTS.items():
+        res["reach"]["node_failure_class:" + k] = res["reach"].get("node_failure_class:" + k, 0) + v
     res["worker_wall_s"] = time.time() - t0
     res["peak_threads"] = max(peak[0], threading.active_count())
     with open(out, "w") as f:
